@@ -982,6 +982,11 @@ CONT_ASSUME = ["panics raised by user code (Clone/Drop impls of components) and 
 def tracker_case(rnd, rounds):
     c = [18]
     nh = 0
+    if rnd.random() < 0.04:
+        # more than 64 tracked entities in one archetype: the tracker's own Previous<T> insertions make columns grow
+        k = rnd.choice([65, 70, 130])
+        for _ in range(k):
+            c += [1, rnd.choice([0, 0, 0, 4])]; nh += 1
     for _ in range(rounds):
         for _ in range(rnd.randrange(0, 9)):
             k = rnd.random()
